@@ -57,90 +57,139 @@ theorem c12_pending_uses_own_cache (env : Env) (pre : List Step) :
 /-! ## the answers -/
 
 /-- **Token authentication, every interleaving.** A token request starts in any reachable state (`tokBegin` with a
-    fresh id); after it ANY steps follow (its own, other requests', alias moves, deletes, re-creations, endpoint
-    changes, clean-ups, evictions, ticks). Every answer given to this request is for the request's host and token and
-    satisfies the judge with respect to the cluster the host resolved to when the request started. -/
-theorem c12_token (env : Env) (pre post : List Step) (rid : Rid) (host tok : Str) (ch : Nat)
+    fresh id; `up` is the cluster WithUpstreamInfo bound it to, if any); after it ANY steps follow (its own, other
+    requests', alias moves, deletes, re-creations, endpoint changes, clean-ups, evictions, ticks). Every answer given to
+    this request is for the request's host and token and satisfies the judge with respect to the cluster the host
+    resolved to when the request started; and an answer that is not an error, or for which a review was sent, is only
+    given when that cluster is not different from the cluster the request is bound to (if binding is checked). -/
+theorem c12_token (env : Env) (pre post : List Step) (rid : Rid) (host tok : Str) (ch : Nat) (up : Option Inst)
     (hfresh : (reach env pre).nextRid ≤ rid) (t : TokOut)
-    (ht : Out.tok t ∈ (runSteps env (reach env pre) (.tokBegin rid host tok ch :: post)).2) (hr : t.rid = rid) :
-    t.host = host ∧ t.tok = tok ∧ t.inst = mgrGet (reach env pre).mgr host ∧
-      TokJudge env ⟨mgrGet (reach env pre).mgr host, ownReady (reach env pre) host, tok, t.res, t.time, t.ep.isSome⟩ := by
+    (ht : Out.tok t ∈ (runSteps env (reach env pre) (.tokBegin rid host tok ch up :: post)).2) (hr : t.rid = rid) :
+    t.host = host ∧ t.tok = tok ∧ t.upstream = up ∧ t.inst = mgrGet (reach env pre).mgr host ∧
+      TokJudge env ⟨mgrGet (reach env pre).mgr host, ownReady (reach env pre) host, tok, t.res, t.time, t.ep.isSome⟩ ∧
+      ((t.res.isError = false ∨ t.ep.isSome = true) →
+        ∃ c, mgrGet (reach env pre).mgr host = some c ∧ ownReady (reach env pre) host = true ∧
+          boundElsewhere env.cfg.bindTok up c = false) := by
   have hinv := c12_invariant env pre
   generalize reach env pre = s at *
   simp only [runSteps, step] at ht
   have hold : ∀ p ∈ s.tokPend, p.rid = rid → False := fun p hp e =>
     absurd (hinv.tokP p hp).1 (by rw [e]; exact Nat.not_lt_of_le hfresh)
+  have hnone : ∀ (s1 : State), s1.tokPend = s.tokPend → s1.nextRid = rid + 1 → Inv env s1 →
+      Out.tok t ∈ (runSteps env s1 post).2 → False := by
+    intro s1 e1 e2 hs1 h1
+    have hrid : RidTok rid (fun _ _ _ => False) s1 :=
+      ⟨by rw [e2]; exact Nat.lt_succ_self _, fun p hp e => hold p (e1 ▸ hp) e⟩
+    obtain ⟨_, c, _, hF⟩ := run_tok rid _ post _ hs1 hrid t h1 hr
+    exact hF
   cases hcf : clientFor s host ch with
   | error k =>
-    rw [tokBegin_of_err hfresh hcf] at ht
+    have hb := tokBegin_of_err (env := env) (tok := tok) (up := up) hfresh hcf
+    rw [hb] at ht
     cases List.mem_append.1 ht with
     | inl h1 =>
       simp only [List.mem_singleton] at h1
       cases h1
-      refine ⟨rfl, rfl, rfl, ?_⟩
-      cases clientFor_err hcf with
-      | inl hx =>
-        obtain ⟨hk, hg⟩ := hx
-        subst hk
-        unfold TokJudge
-        simp [hg]
-      | inr hx =>
-        obtain ⟨hk, c, hg, hre⟩ := hx
-        subst hk
-        unfold TokJudge ownReady
-        simp [hg, hre]
+      refine ⟨rfl, rfl, rfl, rfl, ?_, ?_⟩
+      · cases clientFor_err hcf with
+        | inl hx =>
+          obtain ⟨hk, hg⟩ := hx
+          subst hk
+          unfold TokJudge
+          simp [hg]
+        | inr hx =>
+          obtain ⟨hk, c, hg, hre⟩ := hx
+          subst hk
+          unfold TokJudge ownReady
+          simp [hg, hre]
+      · intro hx
+        cases hx with
+        | inl hx => cases hx
+        | inr hx => cases hx
     | inr h1 =>
-      have hs1 : Inv env { s with nextRid := rid + 1 } := by
-        have := inv_tokBegin hinv rid host tok ch
-        rw [tokBegin_of_err hfresh hcf] at this
-        exact this
-      have hrid : RidTok rid (fun _ _ _ => False) { s with nextRid := rid + 1 } :=
-        ⟨Nat.lt_succ_self _, fun p hp e => hold p hp e⟩
-      obtain ⟨_, c, _, hF⟩ := run_tok rid _ post _ hs1 hrid t h1 hr
-      exact hF.elim
+      have hs1 := inv_tokBegin hinv rid host tok ch up
+      rw [hb] at hs1
+      exact (hnone _ rfl rfl hs1 h1).elim
   | ok ce =>
     obtain ⟨c, e⟩ := ce
-    rw [tokBegin_of_ok hfresh hcf] at ht
-    simp only [List.nil_append] at ht
-    have hs1 : Inv env (setTok { s with nextRid := rid + 1 } ⟨rid, host, tok, c, .resolved⟩) := by
-      have := inv_tokBegin hinv rid host tok ch
-      rw [tokBegin_of_ok hfresh hcf] at this
-      exact this
-    have hrid : RidTok rid (fun h t i => h = host ∧ t = tok ∧ i = c)
-        (setTok { s with nextRid := rid + 1 } ⟨rid, host, tok, c, .resolved⟩) := by
-      refine ⟨Nat.lt_succ_self _, fun p hp e => ?_⟩
-      cases mem_setTok hp with
-      | inl h1 => subst h1; exact ⟨rfl, rfl, rfl⟩
-      | inr h1 => exact (hold p h1 e).elim
-    obtain ⟨hok, c', hi, h1, h2, h3⟩ := run_tok rid _ post _ hs1 hrid t ht hr
-    subst h3
     obtain ⟨hg, hready⟩ := ownReady_of_ok hcf
-    refine ⟨h1, h2, by rw [hi, hg], ?_⟩
-    rw [hg, hready, ← h2]
-    exact tokJudge_of_ok hok hi
+    cases hbe : boundElsewhere env.cfg.bindTok up c with
+    | true =>
+      have hb := tokBegin_of_bound (env := env) (tok := tok) hfresh hcf hbe
+      rw [hb] at ht
+      cases List.mem_append.1 ht with
+      | inl h1 =>
+        simp only [List.mem_singleton] at h1
+        cases h1
+        refine ⟨rfl, rfl, rfl, hg.symm, ?_, ?_⟩
+        · unfold TokJudge
+          simp only [hg, hready]
+          simp [TokRes.isError]
+        · intro hx
+          cases hx with
+          | inl hx => cases hx
+          | inr hx => cases hx
+      | inr h1 =>
+        have hs1 := inv_tokBegin hinv rid host tok ch up
+        rw [hb] at hs1
+        exact (hnone _ rfl rfl hs1 h1).elim
+    | false =>
+      have hb := tokBegin_of_ok (env := env) (tok := tok) hfresh hcf hbe
+      rw [hb] at ht
+      simp only [List.nil_append] at ht
+      have hs1 := inv_tokBegin hinv rid host tok ch up
+      rw [hb] at hs1
+      have hrid : RidTok rid (fun h t i => h = host ∧ t = tok ∧ i = c)
+          (setTok { s with nextRid := rid + 1 } ⟨rid, host, tok, c, up, .resolved⟩) := by
+        refine ⟨Nat.lt_succ_self _, fun p hp e => ?_⟩
+        cases mem_setTok hp with
+        | inl h1 => subst h1; exact ⟨rfl, rfl, rfl⟩
+        | inr h1 => exact (hold p h1 e).elim
+      have hup : RidTok rid (fun _ _ _ => True) (setTok { s with nextRid := rid + 1 } ⟨rid, host, tok, c, up, .resolved⟩) :=
+        ⟨hrid.1, fun _ _ _ => trivial⟩
+      obtain ⟨hok, c', hi, h1, h2, h3⟩ := run_tok rid _ post _ hs1 hrid t ht hr
+      subst h3
+      have hupstream : t.upstream = up := run_tok_upstream rid up post _ hs1
+        ⟨hrid.1, fun p hp e => by
+          cases mem_setTok hp with
+          | inl h1 => subst h1; rfl
+          | inr h1 => exact (hold p h1 e).elim⟩ t ht hr
+      refine ⟨h1, h2, hupstream, by rw [hi, hg], ?_, fun _ => ⟨c', hg, hready, hbe⟩⟩
+      rw [hg, hready, ← h2]
+      exact tokJudge_of_ok hok hi
 
 /-- **Authorization (incl. the impersonation check), every interleaving.** As `c12_token`, for
     `MultiClusterSubjectAccessReviewAuthorizer.Authorize`. -/
-theorem c12_sar (env : Env) (pre post : List Step) (rid : Rid) (host : Str) (attrs : Attrs) (ch : Nat)
+theorem c12_sar (env : Env) (pre post : List Step) (rid : Rid) (host : Str) (attrs : Attrs) (ch : Nat) (up : Option Inst)
     (hfresh : (reach env pre).nextRid ≤ rid) (t : SarOut)
-    (ht : Out.sar t ∈ (runSteps env (reach env pre) (.sarBegin rid host attrs ch :: post)).2) (hr : t.rid = rid) :
-    t.host = host ∧ t.attrs = attrs ∧ t.inst = mgrGet (reach env pre).mgr host ∧
-      SarJudge env ⟨mgrGet (reach env pre).mgr host, ownReady (reach env pre) host, attrs, t.res, t.time, t.ep.isSome⟩ := by
+    (ht : Out.sar t ∈ (runSteps env (reach env pre) (.sarBegin rid host attrs ch up :: post)).2) (hr : t.rid = rid) :
+    t.host = host ∧ t.attrs = attrs ∧ t.upstream = up ∧ t.inst = mgrGet (reach env pre).mgr host ∧
+      SarJudge env ⟨mgrGet (reach env pre).mgr host, ownReady (reach env pre) host, attrs, t.res, t.time, t.ep.isSome⟩ ∧
+      ((t.res.err = none ∨ t.ep.isSome = true) →
+        ∃ c, mgrGet (reach env pre).mgr host = some c ∧ ownReady (reach env pre) host = true ∧
+          boundElsewhere env.cfg.bindSar up c = false) := by
   have hinv := c12_invariant env pre
   generalize reach env pre = s at *
   simp only [runSteps, step] at ht
   have hold : ∀ p ∈ s.sarPend, p.rid = rid → False := fun p hp e =>
     absurd (hinv.sarP p hp).1 (by rw [e]; exact Nat.not_lt_of_le hfresh)
+  have hnone : ∀ (s1 : State), s1.sarPend = s.sarPend → s1.nextRid = rid + 1 → Inv env s1 →
+      Out.sar t ∈ (runSteps env s1 post).2 → False := by
+    intro s1 e1 e2 hs1 h1
+    have hrid : RidSar rid (fun _ _ _ => False) s1 :=
+      ⟨by rw [e2]; exact Nat.lt_succ_self _, fun p hp e => hold p (e1 ▸ hp) e⟩
+    obtain ⟨_, c, _, hF⟩ := run_sar rid _ post _ hs1 hrid t h1 hr
+    exact hF
+  have herrne : ∀ k, (sarErr k).err ≠ none := fun k => by simp [sarErr]
   cases hcf : clientFor s host ch with
   | error k =>
-    rw [sarBegin_of_err hfresh hcf] at ht
+    have hb := sarBegin_of_err (env := env) (attrs := attrs) (up := up) hfresh hcf
+    rw [hb] at ht
     cases List.mem_append.1 ht with
     | inl h1 =>
       simp only [List.mem_singleton] at h1
       cases h1
-      refine ⟨rfl, rfl, rfl, ?_, ?_⟩
-      · intro _
-        exact decisionOnError_deny
+      refine ⟨rfl, rfl, rfl, rfl, ⟨fun _ => decisionOnError_deny, ?_⟩, ?_⟩
       · cases clientFor_err hcf with
         | inl hx =>
           obtain ⟨hk, hg⟩ := hx
@@ -151,33 +200,58 @@ theorem c12_sar (env : Env) (pre post : List Step) (rid : Rid) (host : Str) (att
           subst hk
           unfold ownReady
           simp [hg, hre]
+      · intro hx
+        cases hx with
+        | inl hx => exact absurd hx (herrne k)
+        | inr hx => cases hx
     | inr h1 =>
-      have hs1 : Inv env { s with nextRid := rid + 1 } := by
-        have := inv_sarBegin hinv rid host attrs ch
-        rw [sarBegin_of_err hfresh hcf] at this
-        exact this
-      have hrid : RidSar rid (fun _ _ _ => False) { s with nextRid := rid + 1 } :=
-        ⟨Nat.lt_succ_self _, fun p hp e => hold p hp e⟩
-      obtain ⟨_, c, _, hF⟩ := run_sar rid _ post _ hs1 hrid t h1 hr
-      exact hF.elim
+      have hs1 := inv_sarBegin hinv rid host attrs ch up
+      rw [hb] at hs1
+      exact (hnone _ rfl rfl hs1 h1).elim
   | ok ce =>
     obtain ⟨c, e⟩ := ce
-    rw [sarBegin_of_ok hfresh hcf] at ht
-    simp only [List.nil_append] at ht
-    have hs1 := inv_sarBegin hinv rid host attrs ch
-    rw [sarBegin_of_ok hfresh hcf] at hs1
-    have hrid : RidSar rid (fun h a i => h = host ∧ a = attrs ∧ i = c)
-        (setSar { s with nextRid := rid + 1 } ⟨rid, host, attrs, c, e.name, readyNames { s with nextRid := rid + 1 } c, .resolved⟩) := by
-      refine ⟨Nat.lt_succ_self _, fun p hp e' => ?_⟩
-      cases mem_setSar hp with
-      | inl h1 => subst h1; exact ⟨rfl, rfl, rfl⟩
-      | inr h1 => exact (hold p h1 e').elim
-    obtain ⟨hok, c', hi, h1, h2, h3⟩ := run_sar rid _ post _ hs1 hrid t ht hr
-    subst h3
     obtain ⟨hg, hready⟩ := ownReady_of_ok hcf
-    refine ⟨h1, h2, by rw [hi, hg], ?_⟩
-    rw [hg, hready, ← h2]
-    exact sarJudge_of_ok hok hi
+    cases hbe : boundElsewhere env.cfg.bindSar up c with
+    | true =>
+      have hb := sarBegin_of_bound (env := env) (attrs := attrs) hfresh hcf hbe
+      rw [hb] at ht
+      cases List.mem_append.1 ht with
+      | inl h1 =>
+        simp only [List.mem_singleton] at h1
+        cases h1
+        refine ⟨rfl, rfl, rfl, hg.symm, ⟨fun _ => decisionOnError_deny, ?_⟩, ?_⟩
+        · simp only [hg, hready]
+          simp
+        · intro hx
+          cases hx with
+          | inl hx => exact absurd hx (herrne _)
+          | inr hx => cases hx
+      | inr h1 =>
+        have hs1 := inv_sarBegin hinv rid host attrs ch up
+        rw [hb] at hs1
+        exact (hnone _ rfl rfl hs1 h1).elim
+    | false =>
+      have hb := sarBegin_of_ok (env := env) (attrs := attrs) hfresh hcf hbe
+      rw [hb] at ht
+      simp only [List.nil_append] at ht
+      have hs1 := inv_sarBegin hinv rid host attrs ch up
+      rw [hb] at hs1
+      have hmem : ∀ p ∈ (setSar { s with nextRid := rid + 1 }
+          ⟨rid, host, attrs, c, up, e.name, readyNames { s with nextRid := rid + 1 } c, .resolved⟩).sarPend,
+          p.rid = rid → p.host = host ∧ p.attrs = attrs ∧ p.inst = c ∧ p.upstream = up := by
+        intro p hp e'
+        cases mem_setSar hp with
+        | inl h1 => subst h1; exact ⟨rfl, rfl, rfl, rfl⟩
+        | inr h1 => exact (hold p h1 e').elim
+      have hrid : RidSar rid (fun h a i => h = host ∧ a = attrs ∧ i = c) _ :=
+        ⟨Nat.lt_succ_self _, fun p hp e' => ⟨(hmem p hp e').1, (hmem p hp e').2.1, (hmem p hp e').2.2.1⟩⟩
+      obtain ⟨hok, c', hi, h1, h2, h3⟩ := run_sar rid _ post _ hs1 hrid t ht hr
+      subst h3
+      have hupstream : t.upstream = up := run_sar_upstream rid up post _ hs1
+        ⟨Nat.lt_succ_self _, fun p hp e' => (hmem p hp e').2.2.2⟩ t ht hr
+      refine ⟨h1, h2, hupstream, by rw [hi, hg], ?_, fun _ => ⟨c', hg, hready, hbe⟩⟩
+      rw [hg, hready, ← h2]
+      exact sarJudge_of_ok hok hi
 
 /-! ## consequences spelled out -/
 
